@@ -216,6 +216,7 @@ func runC07(r *mon.Run) {
 		transCase(t, "fit", "log10", dec.Ctx{P: 20, Emin: -1, Emax: 21, Mode: "half_down"}, x2, dec.D{})
 	})
 	r.Parallel("coincidence-lengths", int64(len(coincidenceExps))*r.N(2, 20), func(t *mon.T) { coincidenceArithCase(t, "fit") })
+	r.Parallel("huge-precision", r.N(6000, 400000), func(t *mon.T) { hugePrecisionCase(t, "fit") })
 	// operands from a wider context: zeros (and tiny or huge values) whose
 	// exponent lies outside this context's range. A zero result keeps no digits
 	// but still has an exponent, which must end up inside the range.
